@@ -254,6 +254,63 @@ def space_membership(missing: int, extra: bool, fval: float, ival: int, cat: int
   return finish(got == want, (missing, extra, fval, ival, cat))
 
 
+def traversal_bool_parent(defined_with: int, walk_with: int, value: bool, order: int) -> bool:
+  """
+  pre: 0 <= defined_with <= 1 and 0 <= walk_with <= 1 and 0 <= order <= 1
+  post: _
+  """
+  defined_with, walk_with, value, order = conc(defined_with, 0, 1), conc(walk_with, 0, 1), cbool(value), conc(order, 0, 1)
+  with NoTracing():
+    space = vz.SearchSpace()
+    flag = space.root.add_bool_param('flag')
+    # the child is attached to the value True, spelled either as the string 'True' or as the Python bool
+    flag.select_values(['True'] if defined_with == 0 else [True]).add_float_param('rate', 0.0, 1.0)
+    space.root.add_float_param('z', 0.0, 1.0)
+    chosen = ('True' if value else 'False') if walk_with == 0 else value
+    builder = pi.SequentialParameterBuilder(space, traverse_order=['dfs', 'bfs'][order])
+    visited = []
+    for cfg in builder:
+      visited.append(cfg.name)
+      builder.choose_value(chosen if cfg.name == 'flag' else 0.5)
+      if len(visited) > 6:
+        break
+    want = sorted(['flag', 'z'] + (['rate'] if value else []))
+    ok = sorted(visited) == want
+  reach('traversal_bool')
+  return finish(bool(ok), (defined_with, walk_with, value, order))
+
+
+def client_add_trial_conditional(defect: int) -> bool:
+  """
+  pre: 0 <= defect <= 3
+  post: _
+  """
+  defect = conc(defect, 0, 3)
+  with NoTracing():
+    from vizier._src.service import clients, study_pb2, vizier_client, vizier_service, vizier_service_pb2
+    from vizier.service import pyvizier as svz
+    sv = vizier_service.VizierServicer(database_url=None)
+    sc = svz.StudyConfig(algorithm='RANDOM_SEARCH')
+    m = sc.search_space.root.add_categorical_param('model', ['dnn', 'lin'])
+    m.select_values(['dnn']).add_int_param('layers', 1, 3)
+    sc.metric_information.append(svz.MetricInformation('m', goal=svz.ObjectiveMetricGoal.MAXIMIZE))
+    st = sv.CreateStudy(vizier_service_pb2.CreateStudyRequest(parent='owners/o', study=study_pb2.Study(
+        display_name='s', study_spec=sc.to_proto())))
+    study = clients.Study(vizier_client.VizierClient(st.name, 'c', sv))
+    params = [{'model': 'dnn', 'layers': 2, 'bogus': 1},          # unknown key
+              {'model': 'lin', 'layers': 2},                      # child inactive under the chosen parent value
+              {'model': 'dnn', 'layers': 9},                      # active child out of range
+              {'model': 'zzz'}][defect]                           # infeasible parent value
+    try:
+      study.add_trial(vz.Trial(parameters=params))
+      accepted = True
+    except Exception:  # noqa  (a conditional study may be refused as unsupported, or validated: never accepted wrongly)
+      accepted = False
+    ok = (not accepted) and len(list(study.trials().get())) == 0
+  reach('client_add_trial_conditional')
+  return finish(bool(ok), (defect,))
+
+
 def client_add_trial(inside: int, recreated: bool) -> bool:
   """
   pre: 0 <= inside <= 3
